@@ -9,82 +9,118 @@
 // AVOIDED CONSTRUCTS / COMPILER LIMITATIONS FOUND (do not emit; error shown)
 // ---------------------------------------------------------------------------
 //
-//  L1. File-level import cycles (a.j5s uses a message of hand-written c.proto
-//      while c.proto imports "a.j5s.proto"; or a.j5s <-> b.j5s mutual refs).
-//      protobuild/linker.go resolveFile <-> loadDependencies recurse forever:
-//      fatal, unrecoverable "stack overflow" (process dies).
-//      => the generator keeps the file dependency graph strictly acyclic,
-//      within a package and across packages (files are generated in a global
-//      order and may only reference types of files generated earlier, or of
-//      the same file). Package-level cycles give CircularDependencyError.
+//	L1. File-level import cycles (a.j5s uses a message of hand-written c.proto
+//	    while c.proto imports "a.j5s.proto"; or a.j5s <-> b.j5s mutual refs).
+//	    protobuild/linker.go resolveFile <-> loadDependencies recurse forever:
+//	    fatal, unrecoverable "stack overflow" (process dies).
+//	    => the generator keeps the file dependency graph strictly acyclic,
+//	    within a package and across packages (files are generated in a global
+//	    order and may only reference types of files generated earlier, or of
+//	    the same file). Package-level cycles give CircularDependencyError.
 //
-//  L2. Scalar rules do not register the buf/validate import: an object whose
-//      only validated field is e.g. `field f string { rules.minLength = 1 }`
-//      (same for integer / bool / bytes / timestamp rules and map item rules)
-//      fails with
-//        compile foo.v1: resolve file foo/v1/a.j5s.proto: proto: not found
-//      unless the same *generated file* (main / service / topic sub-file)
-//      contains something that does call ensureImport(buf/validate): a
-//      required field (`!`), an enum field, a key with a format, an object
-//      field with rules, an array with validated items.
-//      => the generator appends an "anchor" field (key:id62/uuid) to every
-//      top-level container that uses scalar rules and has no such anchor.
+//	L2. Scalar rules do not register the buf/validate import: an object whose
+//	    only validated field is e.g. `field f string { rules.minLength = 1 }`
+//	    (same for integer / bool / bytes / timestamp rules and map item rules)
+//	    fails with
+//	      compile foo.v1: resolve file foo/v1/a.j5s.proto: proto: not found
+//	    unless the same *generated file* (main / service / topic sub-file)
+//	    contains something that does call ensureImport(buf/validate): a
+//	    required field (`!`), an enum field, a key with a format, an object
+//	    field with rules, an array with validated items.
+//	    => the generator appends an "anchor" field (key:id62/uuid) to every
+//	    top-level container that uses scalar rules and has no such anchor.
 //
-//  L3. Same root cause for enum options: a .j5s file containing only enums
-//      with `info.x = "..."` entries or `info { name = ... }` definitions and
-//      no object/oneof (nothing imports j5/ext/v1/annotations.proto) fails
-//      with "proto: not found".
-//      => every generated .j5s file starts with an object.
+//	L3. Same root cause for enum options: a .j5s file containing only enums
+//	    with `info.x = "..."` entries or `info { name = ... }` definitions and
+//	    no object/oneof (nothing imports j5/ext/v1/annotations.proto) fails
+//	    with "proto: not found".
+//	    => every generated .j5s file starts with an object.
 //
-//  L4. float rules:  `field f float:FLOAT64 { rules.minimum = 1.5 }`
-//        -> "TODO: float rules not implemented"
+//	L4. float rules:  `field f float:FLOAT64 { rules.minimum = 1.5 }`
+//	      -> "TODO: float rules not implemented"
 //
-//  L5. date rules / decimal rules:  `field f date { rules.minimum = "2020-01-01" }`
-//        -> PANIC: invalid type: got *ext_j5pb.DateField, want *ext_j5pb.FieldOptions
-//      (same with *ext_j5pb.DecimalField). (j5convert/fields.go passes the
-//      wrong message to proto.SetExtension.)
+//	L5. date rules / decimal rules:  `field f date { rules.minimum = "2020-01-01" }`
+//	      -> PANIC: invalid type: got *ext_j5pb.DateField, want *ext_j5pb.FieldOptions
+//	    (same with *ext_j5pb.DecimalField). (j5convert/fields.go passes the
+//	    wrong message to proto.SetExtension.)
 //
-//  L6. array `ext.singleForm = "thing"`
-//        -> PANIC: mismatching field: got j5.schema.v1.ArrayField.Ext.single_form,
-//                  want j5.ext.v1.ArrayField.single_form
+//	L6. array `ext.singleForm = "thing"`
+//	      -> PANIC: mismatching field: got j5.schema.v1.ArrayField.Ext.single_form,
+//	                want j5.ext.v1.ArrayField.single_form
 //
-//  L7. `listRequest` on a service method, or `query.listRequest.defaultSort`
-//      / `query.eventsListRequest` on an entity
-//        -> PANIC: extension j5.list.v1.list_request has mismatching containing
-//                  message: got google.protobuf.MessageOptions, want
-//                  google.protobuf.MethodOptions
+//	L7. `listRequest` on a service method, or `query.listRequest.defaultSort`
+//	    / `query.eventsListRequest` on an entity
+//	      -> PANIC: extension j5.list.v1.list_request has mismatching containing
+//	                message: got google.protobuf.MessageOptions, want
+//	                google.protobuf.MethodOptions
 //
-//  L8. Nested `object X { ... }` declarations inside an object cannot be
-//      referenced from fields: `field n object:X` -> "type X not found",
-//      `field n object:Outer.X` -> `package "Outer" not imported (for schema X)`.
-//      => nested declarations are emitted but never referenced.
+//	L8. Nested `object X { ... }` declarations inside an object cannot be
+//	    referenced from fields: `field n object:X` -> "type X not found",
+//	    `field n object:Outer.X` -> `package "Outer" not imported (for schema X)`.
+//	    => nested declarations are emitted but never referenced.
 //
-//  L9. Self / ancestor references: `object A { field f object:A }`, or a field
-//      of an inline/nested message that references an enclosing message.
-//      Compiles, and protoprint returns NO error, but prints an EMPTY type
-//      name (`   f = 1 [...]`), i.e. invalid proto text
-//      (protoprint.contextRefName strips the whole path).
-//      => never generated (entity event/data fields likewise never reference
-//      the entity's own derived messages).
+//	L9. Self / ancestor references: `object A { field f object:A }`, or a field
+//	    of an inline/nested message that references an enclosing message.
+//	    Compiles, and protoprint returns NO error, but prints an EMPTY type
+//	    name (`   f = 1 [...]`), i.e. invalid proto text
+//	    (protoprint.contextRefName strips the whole path).
+//	    => never generated (entity event/data fields likewise never reference
+//	    the entity's own derived messages).
 //
 // L10. key with format `informal` plus listRules -> "unknown key format
-//      *schema_j5pb.KeyFormat_Informal_". => informal keys get no listRules.
+//
+//	*schema_j5pb.KeyFormat_Informal_". => informal keys get no listRules.
 //
 // L11. `import foo.v1 as alias` (README syntax) is not accepted:
-//        "no more tags expected for type j5.sourcedef.v1.Import"
-//      The working alias form is the qualifier:  `import foo.v1:alias`.
+//
+//	  "no more tags expected for type j5.sourcedef.v1.Import"
+//	The working alias form is the qualifier:  `import foo.v1:alias`.
 //
 // L12. any-field alias `type = "x.v1.Foo"` -> "bad type: want Scalar, got
-//      j5.schema.v1.AnyField.types"; `types = [...]` / `types += "..."` work.
+//
+//	j5.schema.v1.AnyField.types"; `types = [...]` / `types += "..."` work.
 //
 // L13. Negative numbers cannot be written at all (the BCL lexer has no '-').
 //
 // L14. `exclusiveMinimum = false` without `minimum` (same for maximum)
-//        -> "integer rules: exclusive minimum requires minimum to be set".
+//
+//	-> "integer rules: exclusive minimum requires minimum to be set".
 //
 // L15. `?` (optional) on array/map fields and on oneof options would produce
-//      proto3_optional on repeated / oneof members (link error); `?` together
-//      with `!` -> "cannot be both required and optional".
+//
+//	proto3_optional on repeated / oneof members (link error); `?` together
+//	with `!` -> "cannot be both required and optional".
+//
+// L16. array / map typed options of a oneof: `oneof X { option m map:string }`
+//
+//	  -> "field x.v1.X.m: x.v1.MEntry is a synthetic map entry and may not
+//	      be referenced explicitly" (the entry message is attached to the
+//	  wrong parent); repeated members of a oneof are invalid proto anyway.
+//	=> oneof options are never array/map typed.
+//
+// L17. required map field: `field m ! map:string` (or `required = true`)
+//
+//	-> PANIC: runtime error: invalid memory address or nil pointer
+//	   dereference (j5convert/fields.go:162, proto.SetExtension on the
+//	   map field's nil Options).
+//
+// L18. An inline-schema field whose CamelCase name equals the name of an
+//
+//	enclosing message, e.g. `object Vendor { field vendor object {...} }`
+//	or `object Batch { field batch object {...}  field region object {...} }`
+//	  -> "field bravo.v1.Vendor.vendor: unknown type Vendor.Vendor; resolved
+//	      to bravo.v1.Vendor.Vendor.Vendor which is not defined; consider
+//	      using a leading dot" (relative type names for inline schemas).
+//	=> the field-name pool and the type-name pool are disjoint.
+//
+// PERFORMANCE (why bundles are kept small): protoprint/optionreflect
+// Builder.OptionsFor calls protodesc.ToFileDescriptorProto(parentFile) for
+// EVERY message, field, enum, enum value, method... it prints, so printing is
+// quadratic in the size of a generated file; bcl.validateFile builds a fresh
+// protovalidate validator (CEL environments) for every parsed .j5s file; a
+// trivial one-object bundle already costs ~15 ms. Entities and services
+// expand into many messages, so at most one entity and one service are
+// generated per file.
 //
 // Silently ignored by the compiler (still emitted, harmless): timestamp
 // listRules, timestamp rule values, map rules (minPairs/maxPairs), map item
@@ -105,7 +141,7 @@ import (
 type Config struct {
 	MaxPackages        int // local packages, 1..3
 	MaxFilesPerPackage int // 1..3 .j5s files plus optional hand-written .proto files
-	MaxElements        int // top-level elements per file
+	MaxElements        int // top-level elements per file; > 4 also switches to "large" mode (always MaxPackages packages, >= 1 dep, more fields / methods / events per element)
 	MaxDeps            int // external dependency packages 0..2
 }
 
@@ -121,7 +157,7 @@ func SmallConfig() Config {
 
 // LargeConfig produces bigger files (more elements and fields per element).
 func LargeConfig() Config {
-	return Config{MaxPackages: 3, MaxFilesPerPackage: 3, MaxElements: 5, MaxDeps: 2}
+	return Config{MaxPackages: 3, MaxFilesPerPackage: 3, MaxElements: 6, MaxDeps: 2}
 }
 
 // Bundle is one generated set of sources.
